@@ -18,6 +18,7 @@ from vlib import core, impl, x_c16 as X
 from vlib.core import enc_bool, enc_list, enc_opt
 
 SIG_F14 = "C16-F14: unbounded recurring VTODO with DUE=DTSTART or DURATION 0, time range ending exactly at the first DTSTART"
+SIG_F20 = "C16-F20: recurring zero-length VEVENT (DTEND = DTSTART), time range starting or ending exactly at an instance"
 
 
 def classify(o, r):
@@ -27,6 +28,8 @@ def classify(o, r):
         return "C16-F13: time-range without start and end: answer depends on the storage shortcut"
     if X.known_f14(o, r):
         return SIG_F14
+    if X.known_f20(o, r):
+        return SIG_F20
     if rec and not rec["bound"] and X.ref_start(o) in rec["ex"]:
         return "C16: unbounded rule whose first instance is removed by EXDATE: enclosing range / answer taken from DTSTART"
     if o["t"] == "VEVENT" and o["end"] and o["end"][0] == "dur" and o["end"][1] > 0 and o["end"][1] % X.DAY == 0:
@@ -50,7 +53,7 @@ SIG_SPELLING = "C16: comp-filter name not in upper case: comp_match and the stor
 def classify_q(o, r, sp, comp):
     """like classify, but a query whose comp-filter names are not upper case is its own class (except the known F14)"""
     c = classify(o, r)
-    if c == SIG_F14:
+    if c in (SIG_F14, SIG_F20):
         return c
     if sp and (sp.get(comp, comp) != comp or sp.get("VCALENDAR", "VCALENDAR") != "VCALENDAR"):
         return SIG_SPELLING
@@ -95,7 +98,8 @@ def run(ctx):
         "vobject parses the generated iCalendar text into the values the model takes as input (tied by the level-1/3 correspondence)",
         "every date-time stays within Python's datetime range (years 1..9999): DATETIME_MIN/MAX are modelled as -/+ infinity",
         "item.time_range of a stored item is find_time_range of its content (cache consistency is C13's subject)",
-        "all values are whole seconds (iCalendar has no fractions); time zones other than UTC / DATE values, RDATE, BYxxx rules and RECURRENCE-ID overrides are outside the grammar",
+        "all values are whole seconds (iCalendar has no fractions); time zones other than UTC / DATE values and BYxxx rules are outside the grammar; RDATE and RECURRENCE-ID override components are modelled for UTC DATE-TIME VEVENTs only (Model/FilterExt.v)",
+        "dateutil's rruleset iteration with vobject's addRDate=True is the ascending, duplicate-free merge of the rule's progression with RDATE (+ DTSTART when there is an RDATE), minus EXDATE: modelled, tied by the ext correspondence only",
     ]
     ctx.prove()
     rng = ctx.rng
@@ -107,8 +111,9 @@ def run(ctx):
                for t, forever in [(["VEVENT", "VTODO", "VJOURNAL"][i % 3], (i // 3) % 3 != 2)]]
     objs = [c[1] for c in corpus] + leading + [X.gen_obj(rng) for _ in range(nobj)]
     ctx.count("object:first-instances-removed-by-EXDATE", len(leading))
-    # beyond the grammar of the Coq model: RDATE, several instances per day, rescheduled instances (RECURRENCE-ID);
-    # these go through the oracle monitors only (no model to diff against)
+    # beyond the base grammar: RDATE, several instances per day, rescheduled instances (RECURRENCE-ID); at function level
+    # they are diffed against the extended model (Model/FilterExt.v: recorded calls, hull, match) AND checked by the
+    # oracle monitors; at REPORT level by the monitors only
     ext = [X.gen_ext_event(rng) for _ in range(ctx.n(70, 900))]
     for o in ext:
         ctx.count("object:ext:%s" % ("+".join(k for k in ("rdate", "overrides") if o.get(k)) + ("+" + o["rec"]["freq"] if o["rec"] else "")))
@@ -264,13 +269,21 @@ def build_filters(variant, comp, r, sp=None):
 
 
 def ext_level(ctx, ext, first_violation):
-    """Objects outside the Coq grammar (RDATE, FREQ=HOURLY with rescheduled instances, ...), function level, against the
+    """Objects of the extended grammar (RDATE, FREQ=HOURLY with rescheduled instances, ...), function level: model-vs-real
+    correspondence (xrecord / xfind_time_range / xtime_range_match of Model/FilterExt.v by vm_compute) and monitors against the
     independent occurrence arithmetic: (a) the visitor hands out exactly the instances of the object, each with its own
     start and end; (b) find_time_range is their hull; (c) time_range_match = the 9.9 tables."""
     rng = ctx.rng
+    XLIMIT = 40
+    vcases, hcases, mcases = [], [], []
     for o in ext:
         vo = X.parse(o)
         bounded = not (o["rec"] and not o["rec"]["bound"])
+        # model (Model/FilterExt.v) vs implementation: the recorded calls in order, the enclosing range, the match
+        got = X.real_record(o, XLIMIT)
+        vcases.append((o, None if isinstance(got, str) else got))
+        h = X.real_hull(vo, o)
+        hcases.append((o, None if isinstance(h, str) else h))
         if bounded:
             got = X.real_record(o, 2000)
             want = X.event_instances(o, None)
@@ -294,9 +307,10 @@ def ext_level(ctx, ext, first_violation):
                               dict(level="function-hull", object=o, ics=X.to_ics(o), hull=h, instances=want),
                               signature="C16: the enclosing range is not the hull of the instances")
         for r in X.boundary_ranges(rng, o, ctx.n(8, 20)):
+            m = X.real_match(vo, o, r)
+            mcases.append(((o, r), None if isinstance(m, str) else m))
             if not X.proper(r):
                 continue
-            m = X.real_match(vo, o, r)
             want = X.rfc_overlaps(o, r)
             ctx.case(("ext-match", okey(o), tuple(r)), nontrivial=True)
             if m != want and "ext-match" not in first_violation:
@@ -305,6 +319,30 @@ def ext_level(ctx, ext, first_violation):
                     m, want, r[0] and X.fmt_dt(r[0]), r[1] and X.fmt_dt(r[1]), X.to_ics(o).replace("\r\n", "|")),
                     dict(level="function", object=o, ics=X.to_ics(o), range=r, got=m, rfc=want),
                     signature="C16: time_range_match differs from RFC 4791 9.9 (RDATE / several instances per day / rescheduled instance)")
+
+    def record_bad(tag, bad, cases, show):
+        ok = bad is not None and not bad
+        if bad is not None:
+            ctx.obligation("correspondence:%s" % tag, ok,
+                           "" if ok else "model differs from implementation on %d of %d cases, first: %s" % (len(bad), len(cases), show(cases[bad[0]])))
+        if bad:
+            ctx.extra.setdefault("disagreements", {})[tag] = [show(cases[b]) for b in bad[:5]]
+
+    record_bad("ext:visit_time_ranges", ctx.diff_cases(
+        "c16_xv", X.EXT_HEADER, "xrecord %d 700" % XLIMIT, vcases, X.enc_xevent,
+        enc_opt(X.tlist(X.enc_call, "call")), "eq_opt (eq_list eq_call)"),
+        vcases, lambda c: "%s -> %r" % (X.to_ics(c[0]).replace("\r\n", "|"), c[1]))
+    record_bad("ext:find_time_range", ctx.diff_cases(
+        "c16_xh", X.EXT_HEADER, "(fun o => xfind_time_range (xhull_fuel o) o)", hcases, X.enc_xevent,
+        enc_opt(lambda h: "(%s, %s)" % (X.enc_xt(h[0]), X.enc_xt(h[1]))), "eq_opt eq_xx"),
+        hcases, lambda c: "%s -> %r" % (X.to_ics(c[0]).replace("\r\n", "|"), c[1]))
+    record_bad("ext:time_range_match", ctx.diff_cases(
+        "c16_xm", X.EXT_HEADER, "(fun x => xtime_range_match (xmatch_fuel (fst x) (snd x)) (fst x) (snd x))", mcases,
+        lambda x: "(%s, %s)" % (X.enc_xevent(x[0]), X.enc_range(x[1])), enc_opt(enc_bool), "eq_opt Bool.eqb"),
+        mcases, lambda c: "%s range %r -> %r" % (X.to_ics(c[0][0]).replace("\r\n", "|"), c[0][1], c[1]))
+    ctx.count("cases:ext-model-visit", len(vcases))
+    ctx.count("cases:ext-model-hull", len(hcases))
+    ctx.count("cases:ext-model-match", len(mcases))
 
 
 def filter_level(ctx, objs):
